@@ -18,6 +18,7 @@ package types
 
 import (
 	"fmt"
+	"strconv"
 
 	"github.com/docker/go-units"
 )
@@ -40,6 +41,12 @@ func (u *UnitBytes) DecodeMapstructure(value interface{}) error {
 	case int:
 		*u = UnitBytes(v)
 	case string:
+		// a plain integer is a number of bytes: this is what MarshalYAML/MarshalJSON write, and it must read back
+		// exactly, including -1 (unlimited swap) and values above 2^53, both of which units.RAMInBytes mishandles
+		if i, err := strconv.ParseInt(v, 10, 64); err == nil {
+			*u = UnitBytes(i)
+			return nil
+		}
 		b, err := units.RAMInBytes(fmt.Sprint(value))
 		*u = UnitBytes(b)
 		return err
